@@ -100,6 +100,7 @@ def classify(meta, run, unit_file):
     failed = []
     tool = []
     tool_scoped = []
+    demote_candidates = {}
     # a loop the contract file has no invariant for cannot be verified: failures in such a function are a tool limit
     unannotated = {f['key']: (f.get('loops', 0), f.get('loops_with_invariant', 0)) for f in meta.get('functions', [])
                    if f.get('loops', 0) > f.get('loops_with_invariant', 0)}
@@ -147,6 +148,16 @@ def classify(meta, run, unit_file):
                            'message': msg, 'line': line, 'kind': kind,
                            'rendered': d.get('rendered', '')[:3000]})
         else:
+            # a non-obligation error (unsupported construct, rustc error) located inside one function under contract:
+            # that function can be demoted and the rest of the unit still verified
+            where = None
+            for sp in sorted(spans, key=lambda sp: not sp.get('is_primary')):
+                b = find_body(sp['line_start'])
+                if b is not None:
+                    where = b
+                    break
+            if where is not None:
+                demote_candidates.setdefault(where['fn'], msg[:300])
             tool.append(msg[:500])
     fn_status = {}
     js = run['json']
@@ -168,11 +179,11 @@ def classify(meta, run, unit_file):
             tool.append('verus reported failure without a classifiable diagnostic: %s' % run['stderr_tail'][-800:])
     if canary_lines and not canary_failed and js is not None and not tool:
         tool.append('CANARY VERIFIED: `ensures false` was proved with the unit\'s axioms in scope -- trusted base inconsistent')
-    return {'failed': failed, 'tool': tool, 'tool_scoped': tool_scoped, 'fn_status': fn_status, 'canary_failed': canary_failed}
+    return {'failed': failed, 'tool': tool, 'tool_scoped': tool_scoped, 'demote_candidates': demote_candidates, 'fn_status': fn_status, 'canary_failed': canary_failed}
 
 
-def assemble_and_verify(unit, outdir, seed=None, rlimit=None, timeout=900, cache=True):
-    rs, meta = extract.assemble(unit, outdir)
+def _verify_once(unit, outdir, demote, seed, rlimit, timeout, cache):
+    rs, meta = extract.assemble(unit, outdir, demote)
     with open(rs, 'rb') as f:
         digest = hashlib.sha256(f.read() + repr((seed, rlimit)).encode()).hexdigest()
     cdir = os.path.join(VERIF, '.cache', 'verus')
@@ -193,6 +204,57 @@ def assemble_and_verify(unit, outdir, seed=None, rlimit=None, timeout=900, cache
             with open(cfile, 'w') as f:
                 json.dump(run, f)
     res = classify(meta, run, rs)
+    return rs, meta, run, res
+
+
+def assemble_and_verify(unit, outdir, seed=None, rlimit=None, timeout=900, cache=True):
+    """Assemble and verify a unit.  If one function cannot be brought through the extractor / front end (lost hint anchor,
+    unsupported construct, type error against its contract), that function is DEMOTED -- first to an `external_body` import
+    (contract assumed for its callers), then to a bare signature -- and the rest of the unit is still verified.  The demoted
+    function's own obligations are reported as undecided, scoped to the properties they are tagged with."""
+    demote = {}
+    reasons = {}
+    last = None
+    for attempt in range(6):
+        try:
+            rs, meta, run, res = _verify_once(unit, outdir, {k: v for k, v in demote.items()}, seed, rlimit, timeout, cache)
+        except extract.ExtractError as e:
+            k = getattr(e, 'fn_key', None)
+            if k is not None and demote.get(k) != 'bare':
+                demote[k] = 'bare' if demote.get(k) == 'import' else 'import'
+                reasons.setdefault(k, str(e)[:300])
+                continue
+            raise
+        last = (rs, meta, run, res)
+        cands = {k: m for k, m in res.get('demote_candidates', {}).items() if demote.get(k) != 'bare'}
+        if not cands or attempt == 5:
+            break
+        for k, m in cands.items():
+            demote[k] = 'bare' if demote.get(k) == 'import' else 'import'
+            reasons.setdefault(k, m)
+    rs, meta, run, res = last
+    if demote:
+        dem = {d['key']: d for d in meta.get('demoted', [])}
+        bare_names = [dem[k]['name'] for k, v in demote.items() if v == 'bare' and k in dem]
+        for k, v in demote.items():
+            d = dem.get(k, {'tags': [], 'clauses': []})
+            res['tool_scoped'].append({'tags': d['tags'], 'clause': k,
+                                       'msg': 'fn %s could not be brought through the verifier (%s); demoted to %s: its obligations %s are undecided' %
+                                              (k, reasons.get(k, '?'), 'an assumed contract' if v == 'import' else 'a bare signature', d['clauses'][:6])})
+        # a caller of a function whose contract is gone cannot be blamed for a failed proof
+        if bare_names:
+            src = open(rs).read().split('\n')
+            keep = []
+            for f in res['failed']:
+                rng = [(a, b) for a, b, i in meta['linemap'] if i.get('kind') == 'fnbody' and i.get('fn') == f['fn']]
+                body = '\n'.join(src[rng[0][0] - 1:rng[0][1]]) if rng else ''
+                if any(re.search(r'\b%s\s*\(' % re.escape(n), body) for n in bare_names):
+                    res['tool_scoped'].append({'tags': f.get('tags', []), 'clause': f['clause'],
+                                               'msg': 'obligation %s of %s depends on a demoted callee (%s): undecided' % (f['clause'], f['fn'], bare_names)})
+                else:
+                    keep.append(f)
+            res['failed'] = keep
+    res['demoted'] = demote
     return rs, meta, run, res
 
 
